@@ -118,14 +118,14 @@ def dfa_cases(draw, tier):
 
 @st.composite
 def nfa_cases(draw, tier):
-    spec = draw(G.nfa_specs(max_states=5))
+    spec = draw(G.mixed_nfa_specs(max_states=5 if tier == "quick" else 7))
     ws = draw(st.lists(G.words(spec["S"], 9), max_size=3))
     return {"nfa": spec, "words": ws}
 
 
 @st.composite
 def eclose_cases(draw, tier):
-    spec = draw(G.nfa_specs(max_states=6, max_sigma=1))
+    spec = draw(st.one_of(G.nfa_specs(max_states=6, max_sigma=1), G.chain_nfa_specs()))
     subs = draw(st.lists(st.lists(st.sampled_from(spec["Q"]), unique=True, max_size=3), max_size=3))
     return {"nfa": spec, "subsets": subs}
 
